@@ -132,6 +132,9 @@ def _has_quant(z):
     return r
 
 
+HYP_FILTERS = []  # [filter(eng, hyps, goal) -> sub-list of hyps], see pyvc/ext_C12.py (facts about an angle nobody looks at)
+
+
 class Engine:
     MAX_PATHS = 4000
 
@@ -266,7 +269,10 @@ class Engine:
             self.obligs.append(Oblig(name, [], z3.BoolVal(True), kind, note))
             return
         note = (note + " " if note else "") + (f"[variant {self.variant}]" if getattr(self, "variant", "") else "")
-        self.obligs.append(Oblig(name, list(self.pc), goal, kind, note))
+        hyps = list(self.pc)
+        for flt in HYP_FILTERS:  # an extension may DROP hypotheses that cannot matter for this goal (fewer hypotheses: always sound)
+            hyps = flt(self, hyps, goal)
+        self.obligs.append(Oblig(name, hyps, goal, kind, note))
         self.pc.append(goal)
 
     def visible_vars(self):
@@ -374,12 +380,17 @@ class Engine:
             return self.power(a, b)
         raise Unsupported(f"binop {type(op).__name__}")
 
+    @staticmethod
+    def real_divmod_key(za, zb):
+        """ghost table key of the integer quotient of za by zb: one quotient per pair of (simplified) operand terms"""
+        return ("real-divmod", z3.simplify(za).sexpr(), z3.simplify(zb).sexpr())
+
     def real_floordiv_mod(self, op, za, zb):
         """a // b and a % b on floats, over the reals (Python / numpy floor semantics): a = b*q + r with q an INTEGER and r between 0
         (inclusive) and b (exclusive), i.e. r has the sign of the divisor.  q is a fresh integer constant defined by these bounds
         (it exists and is unique for b != 0); b != 0 is a safety obligation."""
         self.check_nonzero(zb)
-        key = ("real-divmod", z3.simplify(za).sexpr(), z3.simplify(zb).sexpr())
+        key = self.real_divmod_key(za, zb)
         if key not in self.ghost:
             q = z3.Int(fresh_name("quot"))
             r = za - zb * z3.ToReal(q)
